@@ -4,11 +4,13 @@ import (
 	"bytes"
 	"encoding/binary"
 	"encoding/hex"
+	"errors"
 	"fmt"
 	"math"
 	"os"
 	"path/filepath"
 	"sort"
+	"strconv"
 	"strings"
 	"time"
 
@@ -255,6 +257,72 @@ func gmRead(data []byte) string {
 	}
 }
 
+// gmWalk reads data, numbers the elements in document order with the harness's own recursion,
+// then runs the real gpmf.Walk with a visiting function that answers ErrSkip for the numbers in
+// skip and a plain error for stop, and reports the numbers visited.
+func gmWalk(data []byte, skip, stop string) string {
+	es, err := gpmf.NewReader().Read(bytes.NewReader(data))
+	if err != nil {
+		return "readerr"
+	}
+	index := map[*gpmf.Element]int{}
+	var number func(es []*gpmf.Element)
+	number = func(es []*gpmf.Element) {
+		for _, e := range es {
+			index[e] = len(index)
+			number(e.Nested)
+		}
+	}
+	number(es)
+	skips := map[int]bool{}
+	if skip != "~" {
+		for _, t := range strings.Split(skip, ",") {
+			n, _ := strconv.Atoi(t)
+			skips[n] = true
+		}
+	}
+	stopAt := -1
+	if stop != "-" {
+		stopAt, _ = strconv.Atoi(stop)
+	}
+	var visited []string
+	errStop := errors.New("stop")
+	var werr error
+	cls, _ := classify(func() error {
+		werr = gpmf.Walk(es, func(e *gpmf.Element) error {
+			i, ok := index[e]
+			if !ok {
+				i = -1
+			}
+			visited = append(visited, strconv.Itoa(i))
+			switch {
+			case i == stopAt:
+				return fmt.Errorf("wrapped: %w", errStop)
+			case skips[i]:
+				return gpmf.ErrSkip
+			}
+			return nil
+		})
+		return nil
+	})
+	if cls == "panic" {
+		return "panic"
+	}
+	res := "ok"
+	switch {
+	case werr == nil:
+	case errors.Is(werr, errStop):
+		res = "stopped"
+	default:
+		res = "othererr"
+	}
+	v := "~"
+	if len(visited) > 0 {
+		v = strings.Join(visited, ",")
+	}
+	return fmt.Sprintf("%s n=%d v=%s", res, len(index), v)
+}
+
 func execGM(_ *config, op string) string {
 	f := strings.Fields(op)
 	switch f[0] {
@@ -264,6 +332,9 @@ func execGM(_ *config, op string) string {
 			data, _ = hex.DecodeString(f[2])
 		}
 		return gmRead(data)
+	case "walk":
+		data, _ := hex.DecodeString(f[1])
+		return gmWalk(data, f[2], f[3])
 	}
 	return "bad"
 }
@@ -589,6 +660,25 @@ func genGM(cfg *config, r *rng, i int, s *sink) string {
 	switch cfg.prop {
 	case "C09":
 		stream = []string{"mut", "mut", "mutcap", "rand", "mut", "mutcap", "wf", "mut", "rand", "mutcap"}[i%10]
+	}
+	if cfg.prop == "C06" && i%8 == 5 {
+		s.count("gm.stream.walk")
+		tree := gmTree(r, s)
+		var skip []string
+		for k := 0; k < 40; k++ {
+			if r.chance(1, 5) {
+				skip = append(skip, strconv.Itoa(k))
+			}
+		}
+		sk := "~"
+		if len(skip) > 0 {
+			sk = strings.Join(skip, ",")
+		}
+		stop := "-"
+		if r.chance(1, 3) {
+			stop = strconv.Itoa(r.intn(30))
+		}
+		return fmt.Sprintf("walk %s %s %s", hexBytes(tree), sk, stop)
 	}
 	s.count("gm.stream." + stream)
 	switch stream {
